@@ -81,6 +81,7 @@ type Contract struct {
 	LockChans  []string
 	Shutdown   []string // channel subjects one of which every blocking select must receive from
 	MayBlock   []string // blocking operations outside a select that are accepted (each listed in evidence)
+	InvokesOnSuccess []string // function-typed parameters called exactly once (returning nil) when the callee's last result is nil
 	Callsback  []string // extern: the callee acts only through these methods of its first argument
 }
 
@@ -525,6 +526,8 @@ func (db *SpecDB) loadText(data, path, pkgPath string, extern bool) error {
 				cur.Shutdown = append(cur.Shutdown, strings.Fields(rest)...)
 			case "mayblock":
 				cur.MayBlock = append(cur.MayBlock, strings.Fields(rest)...)
+			case "invokes-on-success":
+				cur.InvokesOnSuccess = append(cur.InvokesOnSuccess, strings.Fields(rest)...)
 			case "callsback":
 				cur.Callsback = append(cur.Callsback, strings.Fields(rest)...)
 			case "maypanic":
@@ -1366,6 +1369,20 @@ func (env *SpecEnv) evalCall(x *ast.CallExpr) Val {
 			specFail("zero(%q): %v", src, err)
 		}
 		return zeroVal(env.resolveType(te))
+	case "nonnilelems":
+		// nonnilelems(s): no element of s is nil; quantified over absolute positions of the
+		// backing array, so that re-slicing needs no index arithmetic
+		sv := arg(0)
+		sl, ok := sv.T.Underlying().(*types.Slice)
+		if !ok {
+			specFail("nonnilelems needs a slice")
+		}
+		els := leavesOf(sl.Elem())
+		h := env.cur().heapTerm(elemKey(sl.Elem(), els[0].Path), els[0].Sort, true)
+		bv := Term{sym(env.st.ctx.freshName("q!abs")), SInt}
+		rng := And(Le(sv.L[1], bv), Lt(bv, Add(sv.L[1], sv.L[2])))
+		body := Ne(Select(Select(h, sv.L[0]), bv), I(0))
+		return boolVal(Term{fmt.Sprintf("(forall ((%s Int)) %s)", bv.S, Implies(rng, body).S), SBool})
 	case "typetag":
 		return intVal(arg(0).L[0])
 	case "as":
